@@ -82,6 +82,8 @@ func scenarios(tier string) []svc.Scenario {
 		// (the streams exist when the service starts: marks on ids that do not exist yet are KF-C16-3's business)
 		{Name: "mark-query-edit-then-mark-edit", Prebuilt: []int{5}, Program: []string{"addtag:mark/m=id:0", "addtag:tag/t=mark:m", "updtag:mark/m=id:1", "markadd:mark/m=2", "markdel:mark/m=1"}},
 		{Name: "mark-query-edit-with-converter", Converter: true, Prebuilt: []int{5}, Program: []string{"addtag:mark/m=id:0", "converters:mark/m=conv", "updtag:mark/m=id:1,2", "markdel:mark/m=1"}},
+		// two converters on one tag, both of which die on their first attempt at every stream
+		{Name: "converter-pair-fails-once", Converter: true, Program: []string{"import:P1", "addtag:tag/p=cport:1", "converters:tag/p=convflaky,convflaky2", "import:P3"}},
 		{Name: "two-tags", Program: []string{"addtag:tag/p=cport:1", "addtag:tag/d=cdata:foo3", "import:P1", "import:P3"}},
 	}
 	if tier == "thorough" {
